@@ -517,7 +517,9 @@ func c03RealTime(c *fw.Ctx, idx int) {
 // c03AckStorm: a subscriber acknowledges 16 QoS 1 deliveries while expiry sweeps run back to back.
 // For every delivery either the acknowledgement wins (identifier back in the pool, nothing is ever
 // sent again) or a sweep does (identifier still allocated; acknowledged again afterwards).
-func c03AckStorm(c *fw.Ctx, idx int) {
+func c03AckStorm(c *fw.Ctx, idx int) { c03AckStormN(c, idx, c.Pick(16, 80)) }
+
+func c03AckStormN(c *fw.Ctx, idx, rounds int) {
 	fw.LogCase("C03 ack storm %d", idx)
 	cl := kit.NewCluster(kit.WorkDir("c03s"))
 	defer cl.Close()
@@ -544,7 +546,7 @@ func c03AckStorm(c *fw.Ctx, idx int) {
 	}
 	defer pub.Close()
 	far := time.Now()
-	for r := 0; r < c.Pick(16, 80); r++ {
+	for r := 0; r < rounds; r++ {
 		const k = 16
 		ids := map[string]int{}
 		for i := 0; i < k; i++ {
